@@ -6,7 +6,7 @@ from ..model import norm, head, walk_no_nested, AnalysisError, FuncInfo, ClassIn
 from ..cfg import cfg_of
 from ..resolve import Resolver, Ctx
 from ..escape import Escape, fmt_chain, items_sorted
-from ..q import find, match, try_const, tests, calls, only_via, cfg_node_for, fmt
+from ..q import NotConst, find, match, try_const, tests, calls, only_via, cfg_node_for, fmt
 from ..core import key
 from .c16 import BOUND, tag_classes, ASSERTS_OK, presence_check_item
 
@@ -313,11 +313,102 @@ def rule_progress(report, prog):
     report.floor('C08-R3', n, 9)
 
 
+def rule_result_arity(report, prog, res):
+    """R5 (result shapes): Type3Tag.polling() answers with (IDm, PMm) or (IDm, PMm, info) depending on what the tag sent.  Callers
+    that destructure into two names rely on the length test tying the response length to the request code: the tail of polling()
+    is folded for every request code and response length 0..40 -- with request code 0 only a pair may come back -- and every
+    destructuring call site is compared with that arity."""
+    from ..q import fold_block
+    f = prog.func('nfc.tag.tt3.Type3Tag.polling')
+    body = live(f.node.body)
+    start = [i for i, st in enumerate(body) if isinstance(st, ast.Assign) and 'self.send_cmd_recv_rsp(' in norm(st.value)]
+    if not start:
+        raise AnalysisError('C08-R5: polling(): command exchange not found')
+    tail = body[start[-1] + 1:]
+    arity = {}
+    bad = []
+    for rc in (0, 1, 2):
+        for n_ in range(0, 41):
+            env = {'request_code': rc, 'data': bytearray(n_), 'system_code': 0x12FC, 'time_slots': 0}
+            try:
+                r = fold_block(tail, env)
+            except NotConst as e:
+                bad.append('cannot fold the tail of polling() (%s)' % e)
+                break
+            if r[0] == 'return':
+                arity.setdefault(rc, set()).add(len(r[1]) if isinstance(r[1], tuple) else None)
+        if bad:
+            break
+    report.check(not bad and arity.get(0) == {2} and arity.get(1) == {3} and arity.get(2) == {3}, 'C08-R4',
+                 key(f.qname, 'request code 0 yields (IDm, PMm), request codes 1 / 2 yield (IDm, PMm, info), whatever the tag sends'), f.loc(),
+                 'polling(): %s' % (bad[0] if bad else 'result arity by request code is %r: a tag that answers with another length makes the '
+                                    'two-name destructuring of the callers raise ValueError' % {k: sorted(v, key=str) for k, v in arity.items()}))
+    n = 0
+    for q, g in sorted(prog.functions.items()):
+        if not q.startswith('nfc.tag.'):
+            continue
+        for st in walk_no_nested(g.node):
+            if isinstance(st, ast.Assign) and isinstance(st.value, ast.Call) and isinstance(st.value.func, ast.Attribute) and \
+                    st.value.func.attr == 'polling' and isinstance(st.targets[0], ast.Tuple) and 'Emulation' not in q:
+                n += 1
+                kw = {k.arg: k.value for k in st.value.keywords}
+                rc = kw.get('request_code', st.value.args[1] if len(st.value.args) > 1 else None)
+                rcv = 0 if rc is None else try_const(rc)
+                want = {0: 2, 1: 3, 2: 3}.get(rcv)
+                report.check(want == len(st.targets[0].elts), 'C08-R5', key(q, 'destructuring matches the arity polling() returns for the request code', st),
+                             g.loc(st), '%s unpacks the polling result into %d names but request code %r yields %s values'
+                             % (q, len(st.targets[0].elts), rcv, want))
+    report.floor('C08-R5 polling call sites', n, 3)
+
+
+def rule_dispatch_tables(report, prog):
+    """R5 (activation dispatch): a table that maps what the tag answered to the class that is then constructed: every class in the
+    table can be constructed with the arguments of the dispatching call (`TABLE[key](clf, target)`), else the tag's answer decides
+    whether activation ends in TypeError."""
+    n = 0
+    for q, g in sorted(prog.functions.items()):
+        if not q.startswith('nfc.tag.'):
+            continue
+        for c in walk_no_nested(g.node):
+            if not (isinstance(c, ast.Call) and isinstance(c.func, ast.Subscript) and isinstance(c.func.value, ast.Name)):
+                continue
+            tab = prog.module_attr(g.module.name, c.func.value.id)
+            val = tab[1] if isinstance(tab, tuple) and tab[0] == 'expr' else None
+            if not isinstance(val, ast.Dict):
+                continue
+            nargs = len(c.args)
+            kws = set(k.arg for k in c.keywords if k.arg)
+            for v in val.values:
+                r = prog.resolve_expr(g.module, v)
+                cls = r[1] if r is not None and r[0] == 'class' else None
+                if cls is None:
+                    continue
+                n += 1
+                init = prog.lookup(cls, '__init__')
+                okk = True
+                why = ''
+                if isinstance(init, FuncInfo):
+                    a = init.node.args
+                    pos = [x.arg for x in a.posonlyargs + a.args][1:]
+                    required = len(pos) - len(a.defaults)
+                    given = nargs + len([k for k in kws if k in pos])
+                    if a.vararg is None and nargs > len(pos):
+                        okk, why = False, 'takes %d arguments, %d given' % (len(pos), nargs)
+                    elif given < required and not all(p_ in kws for p_ in pos[nargs:required]):
+                        okk, why = False, 'needs %s, %d given' % (', '.join(pos), nargs)
+                report.check(okk, 'C08-R5', key(q, 'class %s of %s can be constructed by the dispatching call' % (cls.name, c.func.value.id)), g.loc(c),
+                             '%s: %s maps an answer of the tag to %s whose __init__ %s: activation of such a tag raises TypeError'
+                             % (q, c.func.value.id, cls.qname, why))
+    report.floor('C08-R5 dispatch table entries', n, 10)
+
+
 def run(report, prog, tier):
     res = Resolver(prog)
     rule_escape(report, prog, res)
     rule_length_vs_area(report, prog)
     rule_progress(report, prog)
+    rule_result_arity(report, prog, res)
+    rule_dispatch_tables(report, prog)
     report.trusted += ['interface summary of ContactlessFrontend.exchange / sense in reader mode (C13)',
                        'a TLV length is an unsigned 8/16 bit value or -1 for NULL/terminator TLVs']
     report.assumptions += ['implicit IndexError / struct.error on short responses are covered by the buffer rules where they exist; ISO-DEP loops are C12-R4']
@@ -352,6 +443,8 @@ triage.add('C08', 'C08-R1', key('ValueError', 'raised in nfc.tag.tt4.Type4Tag.se
 triage.add('C08', 'C08-R1', key('ValueError', 'raised in nfc.tag.tt4.Type4Tag.send_apdu', "raise ValueError('unsupported max response length')"), APDU_REASON, APDU_ANCHORS)
 
 MUTANTS = [
+    ('nxp-version-map-entry-with-other-signature', 'nfc.tag.tt2_nxp', '    b"\\x00\\x04\\x04\\x01\\x01\\x00\\x0B\\x03": NTAG210,', '    b"\\x00\\x04\\x04\\x01\\x01\\x00\\x0B\\x03": NTAG21x,', 'C08-R5'),
+    ('tt3-polling-length-by-response-only', 'nfc.tag.tt3', "        if len(data) != (16 if request_code == 0 else 18):", "        if len(data) not in (16, 18):", 'C08-R5'),
     ('tt3-read-stride-unbounded', 'nfc.tag.tt3', "nbr = min(attributes['nbr'], 15)", "nbr = attributes['nbr']", 'C08-R3'),
     ('tt3-read-stride-second-operand-untested', 'nfc.tag.tt3', "nbr = min(attributes['nbr'], 15)", "nbr = min(attributes['nbr'], attributes['nmaxb'], 15)", 'C08-R3'),
     ('tt3-write-stride-unbounded', 'nfc.tag.tt3', "nbw = min(attributes['nbw'], 13)", "nbw = min(attributes['nbw'], 130)", 'C08-R3'),
